@@ -323,6 +323,12 @@ impl<'ast> VisitorMut<'ast> for BindingEscapeAnalyzer<'_> {
         &mut self,
         node: &'ast mut FunctionExpression,
     ) -> ControlFlow<Self::BreakTy> {
+        // Code run by a direct `eval` inside the function can refer to the function's own name.
+        if (node.contains_direct_eval || self.direct_eval)
+            && let Some(name_scope) = &node.name_scope
+        {
+            name_scope.escape_all_bindings();
+        }
         self.visit_function_like(
             &mut node.parameters,
             &mut node.body,
@@ -335,6 +341,12 @@ impl<'ast> VisitorMut<'ast> for BindingEscapeAnalyzer<'_> {
         &mut self,
         node: &'ast mut GeneratorExpression,
     ) -> ControlFlow<Self::BreakTy> {
+        // Code run by a direct `eval` inside the function can refer to the function's own name.
+        if (node.contains_direct_eval || self.direct_eval)
+            && let Some(name_scope) = &node.name_scope
+        {
+            name_scope.escape_all_bindings();
+        }
         self.visit_function_like(
             &mut node.parameters,
             &mut node.body,
@@ -347,6 +359,12 @@ impl<'ast> VisitorMut<'ast> for BindingEscapeAnalyzer<'_> {
         &mut self,
         node: &'ast mut AsyncFunctionExpression,
     ) -> ControlFlow<Self::BreakTy> {
+        // Code run by a direct `eval` inside the function can refer to the function's own name.
+        if (node.contains_direct_eval || self.direct_eval)
+            && let Some(name_scope) = &node.name_scope
+        {
+            name_scope.escape_all_bindings();
+        }
         self.visit_function_like(
             &mut node.parameters,
             &mut node.body,
@@ -359,6 +377,12 @@ impl<'ast> VisitorMut<'ast> for BindingEscapeAnalyzer<'_> {
         &mut self,
         node: &'ast mut AsyncGeneratorExpression,
     ) -> ControlFlow<Self::BreakTy> {
+        // Code run by a direct `eval` inside the function can refer to the function's own name.
+        if (node.contains_direct_eval || self.direct_eval)
+            && let Some(name_scope) = &node.name_scope
+        {
+            name_scope.escape_all_bindings();
+        }
         self.visit_function_like(
             &mut node.parameters,
             &mut node.body,
